@@ -211,6 +211,13 @@ Theorem C15_roman_site_coincides_all : forall colon c z, arg_at c = Some (VInt z
   dir_radix true src_tables colon true [] c = dir_radix false src_tables colon true [] c.
 Proof. exact roman_site_coincides_all. Qed.
 Print Assumptions C15_roman_site_coincides_all.
+(* ~radix,mincol,padchar,commachar,comma-intervalR: with any prefix parameter dirR is the integer writer in that radix
+   (since repo_fixes/C15-6; before, the parameters were ignored: finding C15-radix-parameters-ignored), so (1)-(4)
+   apply to it and the site coincides for every table, parameter list and integer *)
+Theorem C15_radix_site_coincides : forall T colon at_ p ps c z, arg_at c = Some (VInt z) ->
+  dir_radix true T colon at_ (p :: ps) c = dir_radix false T colon at_ (p :: ps) c.
+Proof. exact radix_site_coincides. Qed.
+Print Assumptions C15_radix_site_coincides.
 Theorem C15_english_site_coincides : forall colon c z, arg_at c = Some (VInt z) ->
   dir_radix true src_tables colon false [] c = dir_radix false src_tables colon false [] c.
 Proof. exact english_site_coincides. Qed.
